@@ -44,6 +44,7 @@ def parseEv? (s : String) : Option Ev :=
   | ["reconnSleep", n] => n.toNat?.map .reconnSleep
   | ["writerClose", c] => c.toNat?.map Ev.writerClose
   | ["closeReturn"] => some .closeReturn
+  | ["closeAbort"] => some .closeAbort
   | ["cfgWrite", c] => c.toNat?.map Ev.cfgWrite
   | ["cfgFail", c] => c.toNat?.map Ev.cfgFail
   | ["envFeed", c] => c.toNat?.map Ev.envFeed
